@@ -257,7 +257,8 @@ fn run_actenv(ctx: &Ctx, l: &[Sx]) -> Sx {
 /// `(actenv2 (<fds> <pid> <names> x<address>) (<fds> <pid> <names> x<address>) <passed>)`: ONE process creates
 /// two listeners in a row; it is started with the first environment and sets the second one itself in
 /// between.  Every `Listener::new` looks at the environment as it is then.
-///   -> (listener2 <R> <R>)
+///   -> (listener2 <R> <R> (fds ok|closed-<n>…|own-descriptors-damaged))   the descriptors handed over and two
+///      pipes the process opens between the two listeners are untouched afterwards
 fn run_actenv2(ctx: &Ctx, l: &[Sx]) -> Sx {
     let a = l[1].as_list().unwrap();
     let b = l[2].as_list().unwrap();
@@ -399,12 +400,15 @@ fn run_listeners(ctx: &Ctx, env1: &[Sx], address1: &Sx, passed: usize, second: O
             _ => sx::atom("garbled"),
         }
     };
-    let want = if second.is_some() { 2 } else { 1 };
+    let want = if second.is_some() { 3 } else { 1 };
     let res: Vec<Sx> = match st {
         None => vec![sx::atom("timeout"); want],
         Some(_) => match std::fs::read_to_string(&out) {
             Ok(text) => {
-                let mut v: Vec<Sx> = text.lines().map(canon).collect();
+                let mut v: Vec<Sx> = text.lines().take(2).map(canon).collect();
+                if let Some(f) = text.lines().nth(2) {
+                    v.push(sx::parse(f).unwrap_or_else(|| sx::atom("garbled")));
+                }
                 v.resize(want, sx::atom("garbled"));
                 v
             }
@@ -662,6 +666,11 @@ fn run_xport(ctx: &Ctx, l: &[Sx]) -> Sx {
         ("abstract", format!("unix:@{}", sub.abs), format!("unix:@{};x=y", sub.abs)),
         ("tcp", format!("tcp:127.0.0.1:{}", port), format!("tcp:127.0.0.1:{}", port)),
     ];
+    // a socket file left over from an earlier run at both path addresses: it is replaced, whatever
+    // parameters follow the path
+    for name in ["u.sock", "m.sock"] {
+        drop(std::os::unix::net::UnixListener::bind(format!("{}/{}", sub.dir, name)));
+    }
     let mut res = Vec::new();
     let act;
     if spec.up {
@@ -703,6 +712,128 @@ fn run_xport(ctx: &Ctx, l: &[Sx]) -> Sx {
     res.push(act);
     let _ = std::fs::remove_dir_all(&sub.dir);
     sx::tagged("xport", res)
+}
+
+/// `(cliact)`: the CLI's own transports in front of the bridge sub-command, `varlink --activate CMD bridge`
+/// and `varlink --bridge CMD bridge`, driven like a shell pipeline: two requests (the second one answered
+/// after 400 ms) are written and the input is closed at once; everything is read until EOF.  As on every
+/// other transport (half-close in `exchange`), both replies arrive.
+///   -> (cliact (activate <n replies>) (bridge <n replies>))
+fn run_cliact(ctx: &Ctx) -> Sx {
+    use serde_json::json;
+    let sub = Subst::new(ctx, "k");
+    let w = WorldSpec { svc: wire::configs()[1].sx.clone(), resolver: None, up: true, seq: false };
+    let specfile = format!("{}/spec", sub.dir);
+    std::fs::write(&specfile, w.to_sx().render() + "\n").unwrap();
+    let helper = helper_path();
+    let mut res = Vec::new();
+    for tag in ["activate", "bridge"] {
+        let dump = format!("{}/dump-{}.json", sub.dir, tag);
+        let mut cmd = std::process::Command::new(varlink_cli_path());
+        if tag == "activate" {
+            cmd.arg("-A").arg(format!("{} serve {} $VARLINK_ADDRESS --idle 2 --dump {}", helper, specfile, dump));
+        } else {
+            cmd.arg("-b").arg(format!("exec {} stdio {} --dump {}", helper, specfile, dump));
+        }
+        cmd.arg("bridge");
+        cmd.stdin(std::process::Stdio::piped()).stdout(std::process::Stdio::piped()).stderr(std::process::Stdio::null());
+        let mut child = cmd.spawn().expect("spawn varlink");
+        let mut stdin = child.stdin.take();
+        let mut stdout = child.stdout.take().unwrap();
+        let mut guard = ChildGuard::new(child);
+        let mut all = serde_json::to_vec(&json!({"method":"org.varlink.service.GetInfo"})).unwrap();
+        all.push(0);
+        all.extend_from_slice(&serde_json::to_vec(&json!({"method":"org.example.abort.SlowReply","parameters":{"delay_ms":400,"token":"c"}})).unwrap());
+        all.push(0);
+        if let Some(s) = stdin.as_mut() {
+            let _ = s.write_all(&all);
+            let _ = s.flush();
+        }
+        drop(stdin.take());
+        let reader = std::thread::spawn(move || {
+            let mut b = Vec::new();
+            let _ = stdout.read_to_end(&mut b);
+            b
+        });
+        let _ = guard.wait_timeout(Duration::from_secs(6));
+        if let Ok(txt) = std::fs::read_to_string(&dump) {
+            if let Ok(v) = serde_json::from_str::<serde_json::Value>(&txt) {
+                if let Some(p) = v["pid"].as_i64() {
+                    guard.extra_pids.push(p as i32);
+                }
+            }
+        }
+        drop(guard);
+        let b = reader.join().unwrap_or_default();
+        res.push(sx::tagged(tag, vec![sx::nat(b.iter().filter(|x| **x == 0).count())]));
+    }
+    let _ = std::fs::remove_dir_all(&sub.dir);
+    sx::tagged("cliact", res)
+}
+
+/// `(errend)`: the same client sequence over a filesystem socket, an abstract socket and tcp, against a
+/// service that gives up on the connection while a pipelined request of the client is still unread:
+/// `ReplyThenAbort.call()` (the handler fails 300 ms after its reply), 100 ms later a second call is sent
+/// (`more()`), 700 ms later the client looks for its reply (`recv()`).  How the connection's end is
+/// reported must not depend on the transport (AF_UNIX resets, TCP delivers the FIN first).
+///   -> (errend (unix x<outcome>) (abstract x<outcome>) (tcp x<outcome>))
+fn run_errend(ctx: &Ctx) -> Sx {
+    use serde_json::{json, Value};
+    let sub = Subst::new(ctx, "z");
+    let w = WorldSpec { svc: wire::configs()[1].sx.clone(), resolver: None, up: true, seq: false };
+    let port = free_port();
+    let addrs = vec![
+        ("unix", format!("unix:{}/e.sock", sub.dir)),
+        ("abstract", format!("unix:@{}e", sub.abs)),
+        ("tcp", format!("tcp:127.0.0.1:{}", port)),
+    ];
+    let mut handles = Vec::new();
+    for (tag, addr) in addrs {
+        let w = w.clone();
+        handles.push((tag, std::thread::spawn(move || -> String {
+            let h = spawn_service(&w, &addr);
+            drop(connect_retry(&addr, Duration::from_secs(3)));
+            let out = match varlink::Connection::with_address(&addr) {
+                Err(e) => format!("connect: {:?}", e.kind()),
+                Ok(conn) => {
+                    let mut c1 = varlink::MethodCall::<Value, Value, varlink::Error>::new(
+                        conn.clone(),
+                        "org.example.abort.ReplyThenAbort",
+                        json!({"delay_ms": 300, "token": "e"}),
+                    );
+                    match c1.call() {
+                        Err(e) => format!("first call: {:?}", e.kind()),
+                        Ok(_) => {
+                            std::thread::sleep(Duration::from_millis(100));
+                            let mut c2 = varlink::MethodCall::<Value, Value, varlink::Error>::new(
+                                conn.clone(),
+                                "org.example.abort.SlowReply",
+                                json!({"delay_ms": 0, "token": "f"}),
+                            );
+                            match c2.more() {
+                                Err(e) => format!("send: {:?}", e.kind()),
+                                Ok(c2) => {
+                                    std::thread::sleep(Duration::from_millis(700));
+                                    match c2.recv() {
+                                        Ok(v) => format!("reply: {}", v),
+                                        Err(e) => format!("{:?}", e.kind()),
+                                    }
+                                }
+                            }
+                        }
+                    }
+                }
+            };
+            drop(h);
+            out
+        })));
+    }
+    let res: Vec<Sx> = handles
+        .into_iter()
+        .map(|(tag, h)| sx::tagged(tag, vec![sx::xs(&h.join().unwrap_or_else(|_| "panic".to_string()))]))
+        .collect();
+    let _ = std::fs::remove_dir_all(&sub.dir);
+    sx::tagged("errend", res)
 }
 
 /// `(actlisten <nonblock t|f> <idle> <rounds>)`: a supervisor (the harness) owns a listening unix socket
@@ -1139,6 +1270,10 @@ impl Suite for AddrSuite {
                 tags: vec!["kind:act3".into(), format!("act3:closed-{}", closed)],
             });
         }
+        // how the end of a connection is reported, per transport
+        cases.push(Case { input: sx::tagged("errend", vec![]), tags: vec!["kind:errend".into()] });
+        // the CLI's --activate / --bridge in front of the bridge sub-command, input closed right after the requests
+        cases.push(Case { input: sx::tagged("cliact", vec![]), tags: vec!["kind:cliact".into()] });
         // two listeners in one process, the activation environment changed in between: every
         // `Listener::new` decides on the environment as it is at that moment
         {
@@ -1199,6 +1334,8 @@ impl Suite for AddrSuite {
             "parse" => run_parse(ctx, l),
             "actenv" => run_actenv(ctx, l),
             "actenv2" => run_actenv2(ctx, l),
+            "errend" => run_errend(ctx),
+            "cliact" => run_cliact(ctx),
             "xport" => run_xport(ctx, l),
             "act3" => run_act3(ctx, l),
             "actlisten" => run_actlisten(ctx, l),
